@@ -1280,4 +1280,23 @@ theorem parse_renderProg {cc} (hcc : SaneClasses cc) (lead : List Char)
   rw [renderProg_eq, parse_progText hcc lead hl _ (progOk_of_wellLaidOut hw)]
   simp [toInsnText_instr]
 
+-- a witness for `SaneClasses` ----------------------------------------------------------------------------------
+
+/-- the ASCII restriction of the three character classes -/
+def asciiClasses : CharClass :=
+  { isWs := fun c => c == ' ' || c == '\n' || c == '\t' || c == '\r'
+    isAlnum := fun c => isLetter c || isDigit c
+    isAlpha := isLetter }
+
+theorem saneClasses_ascii : SaneClasses asciiClasses := by
+  refine ⟨fun c h => ⟨h, by simp [asciiClasses, h]⟩, fun c h => ⟨by simp [asciiClasses, h], ?_⟩, ?_, by decide, by decide⟩
+  · cases hl : isLetter c with
+    | false => exact hl
+    | true => rw [letter_not_digit hl] at h; cases h
+  · intro c h
+    simp only [asciiClasses, Bool.or_eq_true, beq_iff_eq] at h
+    rcases h with ((h | h) | h) | h <;> subst h <;> decide
+
+
 end Rbpf
+
